@@ -5,6 +5,7 @@
 From Coq Require Import List Bool NArith ZArith.
 From Mac Require Import Model.Caveat Model.Msgpack Model.Codec Proofs.CodecProofs Proofs.CodecProofs2.
 Import ListNotations.
+From Mac Require Import Proofs.LenientProofs.
 
 Theorem skip_consumes_a_prefix :
     forall (f : nat) (l r : bytes), skip f l = Some r -> exists pre : list N, l = pre ++ r /\ pre <> [].
@@ -49,6 +50,27 @@ Theorem prealloc_slots_is_capped_legacy :
     forall l : bytes, prealloc_slots l = N.min (legacy_prealloc l) 64.
 Proof. exact (@prealloc_slots_legacy). Qed.
 
+Theorem dec_frames_len_ext :
+    forall (l : bytes) (fs : list (N * bytes)), dec_frames l = Some fs -> dec_frames_len l = Some fs.
+Proof. exact (@dec_frames_len_ext_l). Qed.
+
+Theorem dec_uint_len_ext_thm :
+    forall (l : bytes) (ty : N) (r : bytes), dec_uint l = Some (ty, r) -> dec_uint_len l = Some (ty, r).
+Proof. exact (@dec_uint_len_ext). Qed.
+
+Theorem dec_frames_len_nil :
+    forall t : list N, dec_frames_len (192%N :: t) = Some [].
+Proof. exact (@dec_frames_len_nil_l). Qed.
+
+Theorem dec_uint_len_nil :
+    forall r : list N, dec_uint_len (192%N :: r) = Some (0%N, r).
+Proof. exact (@dec_uint_len_nil_l). Qed.
+
+Theorem dec_uint_len_negfix :
+    forall (c : N) (r : list N),
+    (224 <= c)%N -> (c <= 255)%N -> dec_uint_len (c :: r) = Some ((2 ^ 64 - (256 - c))%N, r).
+Proof. exact (@dec_uint_len_negfix_l). Qed.
+
 Print Assumptions skip_consumes_a_prefix.
 Print Assumptions skip_strictly_shorter.
 Print Assumptions skip_fuel_input_length_suffices.
@@ -59,3 +81,8 @@ Print Assumptions prealloc_slots_bound.
 Print Assumptions prealloc_slots_le_announced.
 Print Assumptions prealloc_legacy_unbounded.
 Print Assumptions prealloc_slots_is_capped_legacy.
+Print Assumptions dec_frames_len_ext.
+Print Assumptions dec_uint_len_ext_thm.
+Print Assumptions dec_frames_len_nil.
+Print Assumptions dec_uint_len_nil.
+Print Assumptions dec_uint_len_negfix.
